@@ -57,7 +57,7 @@ Validate(tc, st) ==
 StartDoc ==
     /\ pc = "start"
     \* all documents are read and parsed before the first one is executed (test.rs: find_and_parse up front)
-    /\ IF (\E j \in 1..NDocs : sc.docs[j].fault # "no") \/ sc.noshell
+    /\ IF (\E j \in 1..NDocs : sc.docs[j].fault \in FaultKinds) \/ sc.noshell
        THEN /\ exit' = 1 /\ pc' = "done"
             /\ UNCHANGED <<sc, d, k, clock, lim, isGlobal, status, outs, res, ran, wall>>
        ELSE /\ pc' = IF Len(Cur) = 0 THEN "enddoc" ELSE "pick"
